@@ -199,6 +199,11 @@ def main():
         return finish(rep, t0, seed, replay_only=bool(a.replay))
     except AnalysisBroken as e:
         print('ANALYSIS-BROKEN property=%s: %s' % (a.pid, e))
+        # obligations already decided before the analysis broke are still reported: a definite violation stays one
+        if any(o['verdict'] == 'violation' for o in rep.obl):
+            rep.note('analysis broke after these obligations were decided: %s' % e)
+            if finish(rep, t0, seed, replay_only=True) == 1:
+                return 1
         return 2
     except Exception:
         traceback.print_exc()
